@@ -1,0 +1,36 @@
+//go:build verif
+
+package namematcher
+
+// Machine-checked contracts (read by /verif/engine; comment-only, compiled only with -tags verif).
+//
+// accepts(rule, host): the meaning of a relay-name pattern as documented for RelayDomainNamePattern: one trailing "$"
+// is stripped; a leading "^" makes it an exact name, otherwise it is a suffix.
+//@ default model int
+//@ default strings smtlib
+//@ spec func stripd(rule string) string = ite(suffixof("$", rule), substr(rule, 0, len(rule) - 1), rule)
+//@ spec func ruleExact(rule string) bool = prefixof("^", stripd(rule))
+//@ spec func ruleName(rule string) string = ite(prefixof("^", stripd(rule)), substr(stripd(rule), 1, len(stripd(rule)) - 1), stripd(rule))
+//@ spec func accepts(rule string, host string) bool = ite(ruleExact(rule), host == ruleName(rule), suffixof(ruleName(rule), host))
+//@ spec func member(exact bool, name string, host string) bool = ite(exact, host == name, suffixof(name, host))
+//@ spec func sup(ae bool, an string, be bool, bn string) bool = ite(ae, be && an == bn, suffixof(an, bn))
+//
+//@ func NewNameMatcher(rule string) (m NameMatcher)
+//@   props C06
+//@   ensures {matcher-means-the-documented-pattern} m.exact == ruleExact(rule) && m.suffix == ruleName(rule)
+//
+//@ func (m *NameMatcher) IsMember(s string) (r bool)
+//@   props C06
+//@   requires m != nil
+//@   ensures r == member(m.exact, m.suffix, s)
+//
+//@ func (m *NameMatcher) IsSupersetOf(matcher NameMatcher) (r bool)
+//@   props C06
+//@   requires m != nil
+//@   ensures r == sup(m.exact, m.suffix, matcher.exact, matcher.suffix)
+//
+// A pattern judged a superset of another accepts every hostname the other accepts (for all patterns and hosts).
+//@ lemma superset_sound(ae bool, an string, be bool, bn string, h string): sup(ae, an, be, bn) && member(be, bn, h) ==> member(ae, an, h)
+//@   props C06
+//@ lemma matcher_is_pattern(rule string, h string): member(ruleExact(rule), ruleName(rule), h) == accepts(rule, h)
+//@   props C06
